@@ -86,6 +86,9 @@ def random_case(rng, task, n_vocab=None, n_clips=None):
             clip["ann_tags"] = _true_tags(rng, vocab, pool, multilabel=ml)
             clip["pred_tags"] = _pred_tags(rng, vocab, pool, single_label=not ml)
         elif task == "sound_event_classification":
+            if rng.random() < 0.4:       # clip-level tags / predicted tags exist too; they are not what this task evaluates
+                clip["ann_tags"] = _true_tags(rng, vocab, pool, multilabel=True)
+                clip["pred_tags"] = _pred_tags(rng, vocab, pool, single_label=False)
             ne = rng.choice([0, 1, 2, 3, 5])
             for ei in range(ne):
                 box = geoms.random_box(rng, "dyadic")
@@ -97,6 +100,9 @@ def random_case(rng, task, n_vocab=None, n_clips=None):
                     clip["events"][-1]["pred_event_copy"] = rng.choice(["features", "relocated"])
         else:
             # detection: annotated and predicted events with overlapping / disjoint / geometry-less placement
+            if rng.random() < 0.4:
+                clip["ann_tags"] = _true_tags(rng, vocab, pool, multilabel=True)
+                clip["pred_tags"] = _pred_tags(rng, vocab, pool, single_label=False)
             na, npred = rng.choice([0, 1, 2, 3, 5]), rng.choice([0, 1, 2, 3, 5])
             slots = []
             t = 0.0
